@@ -301,13 +301,25 @@ func (p *polling) send(packets []*packet.Packet) {
 		}
 	}
 
+	var data types.BufferInterface
+	var err error
 	if p.Protocol() == 3 {
-		data, _ := p.Parser().EncodePayload(packets, p.SupportsBinary())
-		p.write(data, option)
+		data, err = p.Parser().EncodePayload(packets, p.SupportsBinary())
 	} else {
-		data, _ := p.Parser().EncodePayload(packets)
-		p.write(data, option)
+		data, err = p.Parser().EncodePayload(packets)
 	}
+	if err != nil {
+		// a packet could not be encoded (its reader failed): there is nothing
+		// to write; the pending poll is answered like a failed compression
+		if ctx := p.req.Load(); ctx != nil {
+			ctx.Cleanup()
+			ctx.SetStatusCode(http.StatusInternalServerError)
+			ctx.Write(nil)
+		}
+		p.OnError("polling write error", err)
+		return
+	}
+	p.write(data, option)
 }
 
 // Writes data as response to poll request.
